@@ -104,11 +104,17 @@ pub struct ChunkReader<'a> {
 	pub pos: usize,
 	pub schedule: &'a [(usize, ReadChoice)],
 	pub calls: usize,
+	/// answer of every call the schedule does not name
+	pub default: ReadChoice,
 }
 
 impl<'a> ChunkReader<'a> {
 	pub fn new(data: &'a [u8], schedule: &'a [(usize, ReadChoice)]) -> Self {
-		ChunkReader { data, pos: 0, schedule, calls: 0 }
+		ChunkReader { data, pos: 0, schedule, calls: 0, default: ReadChoice::Full }
+	}
+	/// a reader that hands out one byte per call
+	pub fn trickle(data: &'a [u8]) -> Self {
+		ChunkReader { data, pos: 0, schedule: &[], calls: 0, default: ReadChoice::One }
 	}
 }
 
@@ -117,7 +123,7 @@ impl io::Read for ChunkReader<'_> {
 		let call = self.calls;
 		self.calls += 1;
 		let choice =
-			self.schedule.iter().find(|(c, _)| *c == call).map(|(_, x)| *x).unwrap_or(ReadChoice::Full);
+			self.schedule.iter().find(|(c, _)| *c == call).map(|(_, x)| *x).unwrap_or(self.default);
 		let avail = self.data.len() - self.pos;
 		let want = buf.len().min(avail);
 		let n = match choice {
